@@ -291,6 +291,17 @@ fn boundary_block_c08(out: &mut dyn Write) {
         writeln!(out, "greg_valid {} {} {} 23 59 60 0", y, 13, d).unwrap();
         writeln!(out, "greg_valid {} {} {} 23 59 61 0", y, m, d).unwrap();
     }
+    // years around the bounds of the i32 day count an implementation may form (365 x (y - 1900) fits an i32 up to year
+    // 5 885 416; with the leap days added in the same i32 the sum overflows from year 5 881 511 on), both sides of 1900:
+    // value, saturation or error, never a panic
+    for dy in [5_879_609i64, 5_879_610, 5_879_611, 5_881_000, 5_883_515, 5_883_516, 5_883_517] {
+        for y in [1900 + dy, 1900 - dy] {
+            for (m, d) in [(1i64, 1i64), (3, 1), (12, 31)] {
+                writeln!(out, "greg {} {} {} 0 0 0 0 {}", y, m, d, ts2s(SCALES[k % 9])).unwrap();
+                k += 1;
+            }
+        }
+    }
     // each scale's reference date-time and its neighbours
     for ts in SCALES.iter() {
         for (y, m, d) in [(1900i64, 1i64, 1i64), (2000, 1, 1), (1980, 1, 6), (1999, 8, 22), (2006, 1, 1), (1980, 1, 5), (1999, 8, 21), (2005, 12, 31), (1899, 12, 31)] {
